@@ -236,7 +236,9 @@ Definition ps_link (s : pset) (tmpl new : str) (env : slotenv) : ores pset :=
   match alookup tmpl (ps_templates s) with
   | None => OErr ENoSuchTemplate
   | Some t =>
-      if negb (check_binding t env) then OErr EArity
+      (* 3c064e2: the slot-less template that stores a static policy's body is not a link target *)
+      if t_is_static t && amem tmpl (ps_links s) then OErr ENoSuchTemplate
+      else if negb (check_binding t env) then OErr EArity
       else if amem new (ps_links s) then OErr EIdConflict
       else if amem new (ps_templates s) then OErr EIdConflict
       else OOk (mkPset (ps_templates s) (ainsert new (mkPolicy t (Some new) env) (ps_links s))
@@ -359,6 +361,10 @@ Record apiset := mkApi {
   a_templates : list (str * template)
 }.
 Definition empty_api : apiset := mkApi empty_pset [] [].
+
+(* PolicySet::from_ast / from_est: policies = ast.policies(), templates = ast.templates() (those with slots) *)
+Definition api_of_ast (a : pset) : apiset :=
+  mkApi a (ps_links a) (filter (fun kt => negb (t_is_static (snd kt))) (ps_templates a)).
 
 Definition api_add (s : apiset) (p : policy) : ores apiset :=
   if p_is_static p then
